@@ -13,6 +13,14 @@ CLAIMED = {
   "C10": "The stream framer equals an int-arithmetic reference framer on every buffer, and one ReadFrom step from an arbitrary buffered prefix with arbitrary further cuts returns exactly the reference frame, consumes exactly its bytes and conserves the rest (inductive step for streams of any length).",
   "C11": "ChannelData encode/decode decided for all 2^16 numbers and all payload lengths 0..65535 (contents via symbolic probe index); decode-iff-wellformed on arbitrary raw buffers.",
 }
+CLAIMED.update({
+  "C06": "Allocation lifetime in the manager: timer armed with exactly the granted lifetime, Refresh re-arms the full new lifetime from now, expiry/DeleteAllocation removes the allocation with all permissions and channels (all int64 lifetimes, symbolic clock).",
+  "C07": "Permission and channel-binding timers: armed with the right full timeout on install and on every refresh path (not swapped), deadline = now + timeout for all timeouts and elapsed times, expiry removes exactly that entry and frees number and peer.",
+  "C08": "Bijection and range invariant of the channel table preserved by AddChannelBind for all 2^16 numbers and IPv4/IPv6 peers; conflicts rejected with the documented error and no change; identical re-bind refreshes.",
+  "C15": "Teardown balance in the allocation manager: after expiry or DeleteAllocation every socket is closed exactly once, every timer stopped, tables empty, created/deleted events pair up; a second delete releases and reports nothing.",
+  "C16": "TCP relay connection table: ids unique, bind succeeds iff right id and owner and only once, 30 s deadline armed and effective, duplicate Connect is ErrDupeTCPConnection and leaves the manager lock free.",
+  "C18": "Sequential lock discipline on every path of the executed functions (lock balance at end of every path, self-deadlock, unlock of unheld mutex) and the publication invariant at every callback; interleavings are outside the technique.",
+})
 NA = {}
 ALL = ["C%02d" % i for i in range(1, 21)]
 for p in ALL:
